@@ -100,7 +100,22 @@ func factsPrecompiles() {
 				// the sync must come after the last call that runs the Cosmos message and before the final return
 				// the message's writes must have reached the store the StateDB reads before the sync looks: a branch of the
 				// state (CacheContext) written back later, or any deferred call, runs after it
-				late := strings.Contains(src(fd.Body), "CacheContext(")
+				// (a branch that is written back by a top-level statement placed before the sync is fine: the message's
+				// writes are in the store by the time the sync looks)
+				late := false
+				if strings.Contains(src(fd.Body), "CacheContext(") {
+					writeAt, syncAt := -1, -1
+					for i, st := range fd.Body.List {
+						t := strings.TrimSpace(src(st))
+						if t == "writeMsg()" {
+							writeAt = i
+						}
+						if strings.Contains(t, "SyncBalances()") {
+							syncAt = i
+						}
+					}
+					late = !(writeAt >= 0 && syncAt > writeAt) || strings.Count(src(fd.Body), "CacheContext(") != 1
+				}
 				ast.Inspect(fd.Body, func(n ast.Node) bool {
 					if _, ok := n.(*ast.DeferStmt); ok {
 						late = true
@@ -147,7 +162,7 @@ func factsPrecompiles() {
 					}
 					continue
 				}
-				if strings.Contains(t, "msgSrv.") && strings.Contains(t, "sdk.WrapSDKContext(ctx), msg)") && run < 0 {
+				if strings.Contains(t, "msgSrv.") && (strings.Contains(t, "sdk.WrapSDKContext(ctx), msg)") || strings.Contains(t, "sdk.WrapSDKContext(msgCtx), msg)")) && run < 0 {
 					run = i
 				}
 			}
@@ -163,6 +178,25 @@ func factsPrecompiles() {
 		order = append(order, [2]string{m, v})
 	}
 	emitPairs("stakingGrantSpendOrder", order, "per staking precompile method that can spend by grant: the order of CheckAuthzAndAllowanceForGranter, StakeAuthorization.Accept, the message server and UpdateStakingAuthorization among the method's top-level statements")
+	var branch [][2]string
+	for file, ms := range methods {
+		for _, m := range ms {
+			v := "missing"
+			if fd := funcDecl(file, "Precompile", m); fd != nil {
+				b := src(fd.Body)
+				switch {
+				case strings.Count(b, "msgCtx, writeMsg := ctx.CacheContext()") == 1 && strings.Count(b, "writeMsg()") == 1 &&
+					!strings.Contains(b, "msgSrv.") || (strings.Count(b, "msgCtx, writeMsg := ctx.CacheContext()") == 1 && strings.Count(b, "writeMsg()") == 1 && strings.Contains(b, "(sdk.WrapSDKContext(msgCtx), msg)") && !strings.Contains(b, "(sdk.WrapSDKContext(ctx), msg)")):
+					v = "message-on-branch"
+				default:
+					v = "message-on-the-transaction-context"
+				}
+			}
+			branch = append(branch, [2]string{file + "::" + m, v})
+		}
+	}
+	sort.Slice(branch, func(i, j int) bool { return branch[i][0] < branch[j][0] })
+	emitPairs("precompileMessageOnBranch", branch, "per precompile transaction method that runs a Cosmos message: does the message run on a branch of the state (ctx.CacheContext) that is written back by one statement after it succeeded")
 	emitPairs("precompileBalanceSync", out, "per coin-moving precompile transaction method: how the cached EVM balances are brought in step with the bank after the Cosmos message (sync = StateDB.SyncBalances, manual-mirror = AddBalance/SubBalance of one account)")
 
 	// Run() of every stateful precompile commits the StateDB on entry
